@@ -102,8 +102,47 @@ def kwargs_scenarios(draw):
     return {"scenario": "kwargs_keyword", "files": files, "entry": "main.py", "names": ["timeout", "retries"]}
 
 
+SHAPES = {
+    # binding shapes G-PROJ does not produce; every occurrence of the listed names is renamed in turn (behavioural oracle)
+    "async_method": ("import asyncio\nclass K:\n    async def NAME(self, v):\n        return v + 1\n    async def run(self):\n        return await self.NAME(1)\nprint(asyncio.run(K().run()))\n", ["NAME"]),
+    "async_function": ("import asyncio\nasync def NAME(v):\n    return v * 2\nasync def main():\n    return await NAME(4)\nprint(asyncio.run(main()))\n", ["NAME"]),
+    "default_reads_outer_name_of_a_local": ("NAME = 5\ndef f(a=NAME):\n    NAME = a + 1\n    return NAME\nprint(f(), NAME)\n", ["NAME"]),
+    "class_body_reads_outer_name_it_rebinds": ("NAME = 3\nclass C:\n    NAME = NAME + 1\nprint(C.NAME, NAME)\n", ["NAME"]),
+    "multi_line_fstring": ("NAME = 7\ns = f\"\"\"a\n{NAME} b\n{NAME + 1}\"\"\"\nprint(s)\n", ["NAME"]),
+    "generator_sole_argument": ("NAME = 100\ntotal = sum(NAME for NAME in range(4))\nprint(total, NAME)\n", ["NAME"]),
+    "nonlocal_counter": ("def outer():\n    NAME = 1\n    def bump():\n        nonlocal NAME\n        NAME = NAME + 1\n    bump()\n    return NAME\nprint(outer())\n", ["NAME"]),
+    "global_created_in_function": ("def init():\n    global NAME\n    NAME = 1\ninit()\nprint(NAME)\n", ["NAME"]),
+    "property_with_setter": ("class Box:\n    def __init__(self):\n        self._s = 1\n    @property\n    def NAME(self):\n        return self._s\n    @NAME.setter\n    def NAME(self, v):\n        self._s = v\nb = Box()\nb.NAME = 4\nprint(b.NAME)\n", ["NAME"]),
+    "starred_target": ("first, *NAME = [1, 2, 3]\nprint(first, NAME)\n", ["NAME"]),
+    "with_and_except_targets": ("import io\nwith io.StringIO('x') as NAME:\n    print(NAME.read())\ntry:\n    raise ValueError(3)\nexcept ValueError as OTHER:\n    print(OTHER.args)\n", ["NAME", "OTHER"]),
+    "for_else_and_walrus": ("for NAME in range(3):\n    pass\nelse:\n    print(NAME)\nif (OTHER := NAME + 1) > 1:\n    print(OTHER)\n", ["NAME", "OTHER"]),
+    "lambda_default": ("NAME = 2\ng = lambda v, k=NAME: v * k\nprint(g(3), NAME)\n", ["NAME"]),
+    "decorator_and_annotation": ("def NAME(fn):\n    return fn\nOTHER = int\n@NAME\ndef f(v: OTHER) -> OTHER:\n    return v\nprint(f(1), OTHER('2'))\n", ["NAME", "OTHER"]),
+    "keyword_only_default": ("NAME = 4\ndef f(*, k=NAME):\n    return k\nprint(f(), NAME)\n", ["NAME"]),
+    "dict_and_set_comprehension": ("NAME = [1, 2]\nd = {k: k + 1 for k in NAME}\ns = {k for k in NAME if k}\nprint(sorted(d.items()), sorted(s), NAME)\n", ["NAME"]),
+    "conditional_expression_and_chained_compare": ("NAME = 2\nr = NAME if 1 < NAME < 3 else -NAME\nprint(r)\n", ["NAME"]),
+    "del_and_augmented": ("NAME = 1\nNAME += 2\nprint(NAME)\nOTHER = [1]\ndel OTHER[0]\nprint(OTHER)\n", ["NAME", "OTHER"]),
+}
+
+
+@st.composite
+def shape_scenarios(draw):
+    key = draw(st.sampled_from(sorted(SHAPES)))
+    text, names = SHAPES[key]
+    pool = draw(st.permutations(["alpha", "total_count", "_hidden", "Value2"]))
+    real = []
+    for i, n in enumerate(names):
+        text = text.replace(n, pool[i])
+        real.append(pool[i])
+    wrap = draw(st.sampled_from(["module", "module", "in_function"]))
+    if wrap == "in_function" and key != "class_body_reads_outer_name_it_rebinds" and "global " not in text and "import asyncio" not in text and not text.startswith("import io"):
+        text = "def scenario():\n" + "".join("    " + ln + "\n" for ln in text.splitlines()) + "scenario()\n"
+    return {"scenario": "shape:" + key, "files": {"shape.py": text, "main.py": "import shape\n"}, "entry": "main.py", "names": real}
+
+
 def strategy(tier):
     return st.one_of(
+        shape_scenarios(), shape_scenarios(), shape_scenarios(), shape_scenarios(),
         projgen.projects(), projgen.projects(), projgen.projects(), projgen.projects(), projgen.projects(), projgen.projects(), projgen.projects(),
         projgen.projects(), projgen.projects(), projgen.projects(), projgen.projects(), projgen.projects(), projgen.projects(), projgen.projects(),
         star_scenarios(), hierarchy_scenarios(), kwargs_scenarios(),
@@ -181,6 +220,12 @@ def _evaluate_scenario(case, env):
     base = runner.run(files, case["entry"])
     if base[1]:
         raise core.HarnessError("scenario does not run: %s\n%s" % (base[1], runner.LAST_TB))
+    if case["scenario"].startswith("shape:"):
+        # a binding shape with a recorded finding: the predicate is the shape itself
+        out.labels["hazard:" + case["scenario"]] += 1
+        if env.known(case["scenario"]):
+            out.excluded[case["scenario"]] += 1
+            return out
     root = core.fresh_dir("c01s")
     fsmodel.write_tree(root, files)
     project = Project(root, ropefolder=None)
